@@ -1,1 +1,540 @@
-pub fn run(_args: &[String]) {}
+//! C10: enumerate `Core` expression trees (public API), print them with the real
+//! `Display`, and emit `text \t expected-s-expression` lines for the Python side,
+//! which parses the text with `ast` and compares structure.
+use mamba::generate::ast::node::Core;
+
+use crate::json::esc;
+
+#[derive(Clone, Copy, Debug, PartialEq)]
+pub enum K {
+    // binary
+    Add, Sub, Mul, Div, FDiv, Mod, Pow, BAnd, BOr, BXOr, BLShift, BRShift,
+    Eq, Neq, Le, Leq, Ge, Geq, Is, IsN, In, And, Or,
+    // unary
+    Not, AddU, SubU, BOneCmpl,
+    // others
+    Ternary, AnonFun, IsA, Sqrt, Call, CallArg, IndexItem, IndexRange, Prop, ENumK,
+}
+
+pub const BINARY: [K; 23] = [
+    K::Add, K::Sub, K::Mul, K::Div, K::FDiv, K::Mod, K::Pow, K::BAnd, K::BOr, K::BXOr, K::BLShift, K::BRShift,
+    K::Eq, K::Neq, K::Le, K::Leq, K::Ge, K::Geq, K::Is, K::IsN, K::In, K::And, K::Or,
+];
+pub const UNARY: [K; 4] = [K::Not, K::AddU, K::SubU, K::BOneCmpl];
+
+impl K {
+    pub fn slots(self) -> usize {
+        match self {
+            k if BINARY.contains(&k) => 2,
+            K::Ternary => 3,
+            K::IsA => 2,
+            K::ENumK => 0,
+            _ => 1,
+        }
+    }
+    pub fn name(self) -> String {
+        format!("{self:?}")
+    }
+}
+
+/// All node kinds that can appear as a (compound) node.
+pub fn all_kinds() -> Vec<K> {
+    let mut v: Vec<K> = BINARY.to_vec();
+    v.extend(UNARY);
+    v.extend([K::Ternary, K::AnonFun, K::IsA, K::Sqrt, K::Call, K::CallArg, K::IndexItem, K::IndexRange, K::Prop, K::ENumK]);
+    v
+}
+
+/// One representative per Python precedence class (for the full products).
+pub fn representatives() -> Vec<K> {
+    vec![
+        K::Or, K::And, K::Not, K::Le, K::Eq, K::Is, K::In, K::BOr, K::BXOr, K::BAnd, K::BLShift, K::Add, K::Sub, K::Mul, K::Div, K::Mod,
+        K::SubU, K::Pow, K::Ternary, K::AnonFun, K::Call, K::IndexItem, K::Prop,
+    ]
+}
+
+#[derive(Clone, Debug)]
+pub enum T {
+    Leaf(&'static str),
+    Int(&'static str),
+    Node(K, Vec<T>),
+}
+
+fn b(c: Core) -> Box<Core> {
+    Box::new(c)
+}
+
+fn id(s: &str) -> Core {
+    Core::Id { lit: s.to_string() }
+}
+
+pub fn to_core(t: &T) -> Core {
+    match t {
+        T::Leaf(s) => id(s),
+        T::Int(s) => Core::Int { int: s.to_string() },
+        T::Node(k, ch) => {
+            let c = |i: usize| to_core(&ch[i]);
+            match k {
+                K::Add => Core::Add { left: b(c(0)), right: b(c(1)) },
+                K::Sub => Core::Sub { left: b(c(0)), right: b(c(1)) },
+                K::Mul => Core::Mul { left: b(c(0)), right: b(c(1)) },
+                K::Div => Core::Div { left: b(c(0)), right: b(c(1)) },
+                K::FDiv => Core::FDiv { left: b(c(0)), right: b(c(1)) },
+                K::Mod => Core::Mod { left: b(c(0)), right: b(c(1)) },
+                K::Pow => Core::Pow { left: b(c(0)), right: b(c(1)) },
+                K::BAnd => Core::BAnd { left: b(c(0)), right: b(c(1)) },
+                K::BOr => Core::BOr { left: b(c(0)), right: b(c(1)) },
+                K::BXOr => Core::BXOr { left: b(c(0)), right: b(c(1)) },
+                K::BLShift => Core::BLShift { left: b(c(0)), right: b(c(1)) },
+                K::BRShift => Core::BRShift { left: b(c(0)), right: b(c(1)) },
+                K::Eq => Core::Eq { left: b(c(0)), right: b(c(1)) },
+                K::Neq => Core::Neq { left: b(c(0)), right: b(c(1)) },
+                K::Le => Core::Le { left: b(c(0)), right: b(c(1)) },
+                K::Leq => Core::Leq { left: b(c(0)), right: b(c(1)) },
+                K::Ge => Core::Ge { left: b(c(0)), right: b(c(1)) },
+                K::Geq => Core::Geq { left: b(c(0)), right: b(c(1)) },
+                K::Is => Core::Is { left: b(c(0)), right: b(c(1)) },
+                K::IsN => Core::IsN { left: b(c(0)), right: b(c(1)) },
+                K::In => Core::In { left: b(c(0)), right: b(c(1)) },
+                K::And => Core::And { left: b(c(0)), right: b(c(1)) },
+                K::Or => Core::Or { left: b(c(0)), right: b(c(1)) },
+                K::Not => Core::Not { expr: b(c(0)) },
+                K::AddU => Core::AddU { expr: b(c(0)) },
+                K::SubU => Core::SubU { expr: b(c(0)) },
+                K::BOneCmpl => Core::BOneCmpl { expr: b(c(0)) },
+                K::Ternary => Core::Ternary { cond: b(c(0)), then: b(c(1)), el: b(c(2)) },
+                K::AnonFun => Core::AnonFun { args: vec![], body: b(c(0)) },
+                K::IsA => Core::IsA { left: b(c(0)), right: b(c(1)) },
+                K::Sqrt => Core::Sqrt { expr: b(c(0)) },
+                K::Call => Core::FunctionCall { function: b(c(0)), args: vec![id("x")] },
+                K::CallArg => Core::FunctionCall { function: b(id("f")), args: vec![c(0), id("y")] },
+                K::IndexItem => Core::Index { item: b(c(0)), range: b(id("i")) },
+                K::IndexRange => Core::Index { item: b(id("v")), range: b(c(0)) },
+                K::Prop => Core::PropertyCall { object: b(c(0)), property: b(id("p")) },
+                K::ENumK => Core::ENum { num: "2".to_string(), exp: "3".to_string() },
+            }
+        }
+    }
+}
+
+fn py_binop(k: K) -> Option<&'static str> {
+    Some(match k {
+        K::Add => "Add", K::Sub => "Sub", K::Mul => "Mult", K::Div => "Div", K::FDiv => "FloorDiv", K::Mod => "Mod",
+        K::Pow => "Pow", K::BAnd => "BitAnd", K::BOr => "BitOr", K::BXOr => "BitXor", K::BLShift => "LShift",
+        K::BRShift => "RShift",
+        _ => return None,
+    })
+}
+
+fn py_cmp(k: K) -> Option<&'static str> {
+    Some(match k {
+        K::Eq => "Eq", K::Neq => "NotEq", K::Le => "Lt", K::Leq => "LtE", K::Ge => "Gt", K::Geq => "GtE",
+        K::Is => "Is", K::IsN => "IsNot", K::In => "In",
+        _ => return None,
+    })
+}
+
+/// Expected s-expression, in the format of mv/pyside.py::sexpr (BoolOps flattened).
+pub fn sexpr(t: &T) -> String {
+    match t {
+        T::Leaf(s) => s.to_string(),
+        T::Int(s) => s.to_string(),
+        T::Node(k, ch) => {
+            let c = |i: usize| sexpr(&ch[i]);
+            if let Some(op) = py_binop(*k) {
+                return format!("({op} {} {})", c(0), c(1));
+            }
+            if let Some(op) = py_cmp(*k) {
+                return format!("(Compare {} {op} {})", c(0), c(1));
+            }
+            match k {
+                K::And | K::Or => {
+                    let name = if *k == K::And { "And" } else { "Or" };
+                    let mut parts = vec![];
+                    flatten(t, *k, &mut parts);
+                    format!("({name} {})", parts.join(" "))
+                }
+                K::Not => format!("(Not {})", c(0)),
+                K::AddU => format!("(UAdd {})", c(0)),
+                K::SubU => format!("(USub {})", c(0)),
+                K::BOneCmpl => format!("(Invert {})", c(0)),
+                K::Ternary => format!("(IfExp {} {} {})", c(0), c(1), c(2)),
+                K::AnonFun => format!("(Lambda {})", c(0)),
+                K::IsA => format!("(Call isinstance {} {})", c(0), c(1)),
+                K::Sqrt => format!("(Call (Attr math sqrt) {})", c(0)),
+                K::Call => format!("(Call {} x)", c(0)),
+                K::CallArg => format!("(Call f {} y)", c(0)),
+                K::IndexItem => format!("(Index {} i)", c(0)),
+                K::IndexRange => format!("(Index v {})", c(0)),
+                K::Prop => format!("(Attr {} p)", c(0)),
+                K::ENumK => String::from("(Mult 2 (Pow 10 3))"),
+                _ => unreachable!(),
+            }
+        }
+    }
+}
+
+fn flatten(t: &T, k: K, out: &mut Vec<String>) {
+    match t {
+        T::Node(kk, ch) if *kk == k => {
+            flatten(&ch[0], k, out);
+            flatten(&ch[1], k, out);
+        }
+        _ => out.push(sexpr(t)),
+    }
+}
+
+const LEAVES: [&str; 3] = ["a", "b", "c"];
+
+fn leaf_for(slot: usize) -> T {
+    T::Leaf(LEAVES[slot % 3])
+}
+
+/// node of kind k whose slot `s` holds `child`, other slots hold leaves.
+fn with_child(k: K, s: usize, child: T) -> T {
+    let n = k.slots();
+    let mut ch = vec![];
+    for i in 0..n {
+        if i == s {
+            ch.push(child.clone());
+        } else {
+            ch.push(leaf_for(i));
+        }
+    }
+    T::Node(k, ch)
+}
+
+fn leaf_node(k: K, int: bool) -> T {
+    let n = k.slots();
+    T::Node(k, (0..n).map(|i| if int && i == 0 && k != K::Prop { T::Int("1") } else { leaf_for(i) }).collect())
+}
+
+fn tags(t: &T) -> String {
+    // parent:slot:child chain along the first compound child of every level
+    fn go(t: &T, out: &mut Vec<String>) {
+        if let T::Node(k, ch) = t {
+            for (i, c) in ch.iter().enumerate() {
+                if let T::Node(ck, _) = c {
+                    out.push(format!("{}/{}/{}", k.name(), i, ck.name()));
+                    go(c, out);
+                }
+            }
+        }
+    }
+    let mut v = vec![];
+    go(t, &mut v);
+    v.join(",")
+}
+
+struct Out {
+    index: u64,
+    shard: u64,
+    of: u64,
+    emitted: u64,
+}
+
+impl Out {
+    fn emit(&mut self, fam: &str, t: &T) {
+        let mine = self.index % self.of == self.shard;
+        self.index += 1;
+        if !mine {
+            return;
+        }
+        self.emitted += 1;
+        let core = to_core(t);
+        let text = format!("{core}");
+        println!("T {{\"i\":{},\"fam\":{},\"text\":{},\"want\":{},\"tags\":{}}}", self.index - 1, esc(fam), esc(text.trim_end()), esc(&sexpr(t)), esc(&tags(t)));
+    }
+}
+
+impl Out {
+    fn emit_wrapped(&mut self, fam: &str, t: &T, how: u8) {
+        let mine = self.index % self.of == self.shard;
+        self.index += 1;
+        if !mine {
+            return;
+        }
+        self.emitted += 1;
+        let inner = to_core(t);
+        let x = Box::new(Core::Id { lit: "x".to_string() });
+        let core = match how {
+            0 => Core::VarDef { var: x, ty: None, expr: Some(Box::new(inner)) },
+            1 => Core::Assign { left: x, right: Box::new(inner), op: mamba::generate::ast::node::CoreOp::Assign },
+            _ => Core::Return { expr: Box::new(inner) },
+        };
+        let text = format!("{core}");
+        println!("T {{\"i\":{},\"fam\":{},\"text\":{},\"want\":{},\"tags\":{}}}", self.index - 1, esc(fam), esc(text.trim_end()), esc(&sexpr(t)), esc(&tags(t)));
+    }
+}
+
+pub fn run(args: &[String]) {
+    let mode = args.first().map(|s| s.as_str()).unwrap_or("quick");
+    let shard: u64 = args.get(1).and_then(|s| s.parse().ok()).unwrap_or(0);
+    let of: u64 = args.get(2).and_then(|s| s.parse().ok()).unwrap_or(1).max(1);
+    let mut out = Out { index: 0, shard, of, emitted: 0 };
+    let kinds = all_kinds();
+    let reps = representatives();
+
+    // depth 1-2: every kind over leaves (identifier and integer literal)
+    for k in &kinds {
+        out.emit("d2.leaves", &leaf_node(*k, false));
+        if k.slots() > 0 {
+            out.emit("d2.leaves", &leaf_node(*k, true));
+        }
+    }
+    // depth 3, complete for one compound child: every (parent, slot, child)
+    for p in &kinds {
+        for s in 0..p.slots() {
+            for c in &kinds {
+                out.emit("d3.spine", &with_child(*p, s, leaf_node(*c, false)));
+            }
+        }
+    }
+    // depth 3, both operands compound: all binary parents x all pairs of kinds
+    for p in BINARY.iter() {
+        for c1 in &kinds {
+            for c2 in &kinds {
+                let t = T::Node(*p, vec![leaf_node(*c1, false), leaf_node(*c2, false)]);
+                out.emit("d3.both", &t);
+                // the same tree as the right-hand side of the statements that embed expressions
+                out.emit_wrapped("d3.both.vardef", &t, 0);
+                out.emit_wrapped("d3.both.assign", &t, 1);
+                out.emit_wrapped("d3.both.return", &t, 2);
+            }
+        }
+    }
+    // ternary with all three slots compound over the representatives
+    for c0 in &reps {
+        for c1 in &reps {
+            for c2 in &reps {
+                let t = T::Node(K::Ternary, vec![leaf_node(*c0, false), leaf_node(*c1, false), leaf_node(*c2, false)]);
+                out.emit("d3.ternary", &t);
+            }
+        }
+    }
+    // depth 4 spines: complete over (parent, slot, child, slot, grandchild)
+    for p in &kinds {
+        for s in 0..p.slots() {
+            for c in &kinds {
+                for s2 in 0..c.slots() {
+                    for g in &kinds {
+                        if mode == "quick" && !(reps.contains(p) && reps.contains(c) && reps.contains(g)) {
+                            continue;
+                        }
+                        let t = with_child(*p, s, with_child(*c, s2, leaf_node(*g, false)));
+                        out.emit("d4.spine", &t);
+                    }
+                }
+            }
+        }
+    }
+    if mode == "thorough" {
+        // depth 4 full products over the representatives of binary shape: p(c1(g1, g2), c2(g3, g4)) is too large;
+        // take p(c1(g1,_), c2(_,g2)) : the two inner operands adjacent to the parent operator
+        let breps: Vec<K> = reps.iter().cloned().filter(|k| k.slots() == 2).collect();
+        for p in &breps {
+            for c1 in &breps {
+                for c2 in &breps {
+                    for g1 in &reps {
+                        for g2 in &reps {
+                            let l = T::Node(*c1, vec![leaf_for(0), leaf_node(*g1, false)]);
+                            let r = T::Node(*c2, vec![leaf_node(*g2, false), leaf_for(1)]);
+                            out.emit("d4.inner", &T::Node(*p, vec![l, r]));
+                        }
+                    }
+                }
+            }
+        }
+        // depth 5 spines over the representatives
+        for p in &reps {
+            for s in 0..p.slots() {
+                for c in &reps {
+                    for s2 in 0..c.slots() {
+                        for g in &reps {
+                            for s3 in 0..g.slots() {
+                                for h in &reps {
+                                    let t = with_child(*p, s, with_child(*c, s2, with_child(*g, s3, leaf_node(*h, false))));
+                                    out.emit("d5.spine", &t);
+                                }
+                            }
+                        }
+                    }
+                }
+            }
+        }
+    }
+    println!("S {{\"space\":{},\"emitted\":{}}}", out.index, out.emitted);
+}
+
+// ---------------------------------------------------------------------------
+// End-to-end from Mamba source: parse with the real parser, convert with the
+// real generator (no type check: ASTTy::from(&AST)), print; the expectation is
+// the s-expression of the tree the *parser* built, desugared as documented.
+
+use mamba::check::ast::ASTTy;
+use mamba::parse::ast::{Node, AST};
+
+fn bool_flat(ast: &AST, is_or: bool, out: &mut Vec<String>) -> Option<()> {
+    match &ast.node {
+        Node::Or { left, right } | Node::Question { left, right } if is_or => {
+            bool_flat(left, true, out)?;
+            bool_flat(right, true, out)?;
+        }
+        Node::And { left, right } if !is_or => {
+            bool_flat(left, false, out)?;
+            bool_flat(right, false, out)?;
+        }
+        _ => out.push(ast_sexpr(ast)?),
+    }
+    Some(())
+}
+
+fn py_name(s: &str) -> String {
+    match s {
+        "Int" => "int", "Float" => "float", "Str" => "str", "Bool" => "bool", "List" => "list", "Set" => "set",
+        other => other,
+    }
+    .to_string()
+}
+
+pub fn ast_sexpr(ast: &AST) -> Option<String> {
+    let s = |a: &AST| ast_sexpr(a);
+    let bin = |op: &str, l: &AST, r: &AST| -> Option<String> { Some(format!("({op} {} {})", s(l)?, s(r)?)) };
+    let cmp = |op: &str, l: &AST, r: &AST| -> Option<String> { Some(format!("(Compare {} {op} {})", s(l)?, s(r)?)) };
+    Some(match &ast.node {
+        Node::Id { lit } => py_name(lit),
+        Node::Int { lit } => lit.trim_start_matches('0').to_string().chars().next().map_or("0".to_string(), |_| lit.trim_start_matches('0').to_string()),
+        Node::Real { lit } => {
+            let f: f64 = lit.parse().ok()?;
+            let r = format!("{f:?}");
+            r
+        }
+        Node::ENum { num, exp } => format!("(Mult {} (Pow 10 {}))", num, if exp.is_empty() { "0" } else { exp }),
+        Node::Str { lit, expressions } if expressions.is_empty() => format!("'{lit}'"),
+        Node::Add { left, right } => bin("Add", left, right)?,
+        Node::Sub { left, right } => bin("Sub", left, right)?,
+        Node::Mul { left, right } => bin("Mult", left, right)?,
+        Node::Div { left, right } => bin("Div", left, right)?,
+        Node::FDiv { left, right } => bin("FloorDiv", left, right)?,
+        Node::Mod { left, right } => bin("Mod", left, right)?,
+        Node::Pow { left, right } => bin("Pow", left, right)?,
+        Node::BAnd { left, right } => bin("BitAnd", left, right)?,
+        Node::BOr { left, right } => bin("BitOr", left, right)?,
+        Node::BXOr { left, right } => bin("BitXor", left, right)?,
+        Node::BLShift { left, right } => bin("LShift", left, right)?,
+        Node::BRShift { left, right } => bin("RShift", left, right)?,
+        Node::Le { left, right } => cmp("Lt", left, right)?,
+        Node::Leq { left, right } => cmp("LtE", left, right)?,
+        Node::Ge { left, right } => cmp("Gt", left, right)?,
+        Node::Geq { left, right } => cmp("GtE", left, right)?,
+        Node::Eq { left, right } => cmp("Eq", left, right)?,
+        Node::Neq { left, right } => cmp("NotEq", left, right)?,
+        Node::Is { left, right } => cmp("Is", left, right)?,
+        Node::IsN { left, right } => cmp("IsNot", left, right)?,
+        Node::In { left, right } => cmp("In", left, right)?,
+        Node::IsA { left, right } => format!("(Call isinstance {} {})", s(left)?, s(right)?),
+        Node::IsNA { left, right } => format!("(Not (Call isinstance {} {}))", s(left)?, s(right)?),
+        Node::And { .. } => {
+            let mut parts = vec![];
+            bool_flat(ast, false, &mut parts)?;
+            format!("(And {})", parts.join(" "))
+        }
+        Node::Or { .. } | Node::Question { .. } => {
+            let mut parts = vec![];
+            bool_flat(ast, true, &mut parts)?;
+            format!("(Or {})", parts.join(" "))
+        }
+        Node::Not { expr } => format!("(Not {})", s(expr)?),
+        Node::AddU { expr } => format!("(UAdd {})", s(expr)?),
+        Node::SubU { expr } => format!("(USub {})", s(expr)?),
+        Node::BOneCmpl { expr } => format!("(Invert {})", s(expr)?),
+        Node::Sqrt { expr } => format!("(Call (Attr math sqrt) {})", s(expr)?),
+        Node::IfElse { cond, then, el: Some(el) } => format!("(IfExp {} {} {})", s(cond)?, s(then)?, s(el)?),
+        Node::Range { from, to, inclusive, step } => {
+            let to_s = if *inclusive { format!("(Add {} 1)", s(to)?) } else { s(to)? };
+            let step_s = match step {
+                Some(st) => s(st)?,
+                None => "1".to_string(),
+            };
+            format!("(Call range {} {} {})", s(from)?, to_s, step_s)
+        }
+        Node::Slice { from, to, inclusive, step } => {
+            let to_s = if !*inclusive { format!("(Sub {} 1)", s(to)?) } else { s(to)? };
+            let step_s = match step {
+                Some(st) => s(st)?,
+                None => "1".to_string(),
+            };
+            format!("(Call slice {} {} {})", s(from)?, to_s, step_s)
+        }
+        Node::Index { item, range } => format!("(Index {} {})", s(item)?, s(range)?),
+        Node::FunctionCall { name, args } => {
+            let mut parts = vec![s(name)?];
+            for a in args {
+                parts.push(s(a)?);
+            }
+            format!("(Call {})", parts.join(" "))
+        }
+        Node::PropertyCall { instance, property } => apply_prop(s(instance)?, property)?,
+        Node::Tuple { elements } => format!("(Tuple {})", elements.iter().map(s).collect::<Option<Vec<_>>>()?.join(" ")),
+        Node::List { elements } => format!("(List {})", elements.iter().map(s).collect::<Option<Vec<_>>>()?.join(" ")),
+        Node::Set { elements } => format!("(Set {})", elements.iter().map(s).collect::<Option<Vec<_>>>()?.join(" ")),
+        Node::AnonFun { body, .. } => format!("(Lambda {})", s(body)?),
+        _ => return None,
+    })
+}
+
+fn apply_prop(inst: String, property: &AST) -> Option<String> {
+    match &property.node {
+        Node::Id { lit } => Some(format!("(Attr {inst} {lit})")),
+        Node::FunctionCall { name, args } => {
+            let n = match &name.node {
+                Node::Id { lit } => lit.clone(),
+                _ => return None,
+            };
+            let mut parts = vec![format!("(Attr {inst} {n})")];
+            for a in args {
+                parts.push(ast_sexpr(a)?);
+            }
+            Some(format!("(Call {})", parts.join(" ")))
+        }
+        Node::PropertyCall { instance, property } => apply_prop(apply_prop(inst, instance)?, property),
+        _ => None,
+    }
+}
+
+/// stdin: one Mamba expression per line.  stdout: one `J {json}` line per input.
+pub fn run_source() {
+    use std::io::BufRead;
+    crate::serve::install_panic_hook();
+    let stdin = std::io::stdin();
+    for line in stdin.lock().lines() {
+        let line = match line {
+            Ok(l) => l,
+            Err(_) => break,
+        };
+        let src = line.replace("\\n", "\n");
+        let res = std::panic::catch_unwind(|| -> Result<(String, Option<String>), String> {
+            let ast = src.parse::<AST>().map_err(|e| format!("parse: {}", e.msg))?;
+            let stmt = match &ast.node {
+                Node::Block { statements } if statements.len() == 1 => statements[0].clone(),
+                _ => return Err("not a single statement".to_string()),
+            };
+            let want = match &stmt.node {
+                Node::Reassign { right, .. } => ast_sexpr(right),
+                Node::VariableDef { expr: Some(expr), .. } => ast_sexpr(expr),
+                _ => ast_sexpr(&stmt),
+            };
+            let core = mamba::generate::gen(&ASTTy::from(&stmt)).map_err(|e| format!("gen: {}", e.msg))?;
+            Ok((format!("{core}").trim_end().to_string(), want))
+        });
+        match res {
+            Ok(Ok((text, Some(want)))) => println!("J {{\"src\":{},\"text\":{},\"want\":{}}}", esc(&src), esc(&text), esc(&want)),
+            Ok(Ok((text, None))) => println!("J {{\"src\":{},\"text\":{},\"unsupported\":true}}", esc(&src), esc(&text)),
+            Ok(Err(e)) => println!("J {{\"src\":{},\"err\":{}}}", esc(&src), esc(&e)),
+            Err(_) => {
+                let (loc, msg) = crate::serve::take_panic();
+                println!("J {{\"src\":{},\"panic\":{}}}", esc(&src), esc(&format!("{loc}: {msg}")));
+            }
+        }
+    }
+}
